@@ -15,6 +15,17 @@ CLAIMED = {
         note='Trusted: Coq kernel, translator, joblib order preservation (call order inside a parallel batch compared as a sorted list), the harness '
              'Process subclass. Partial: interleavings inside joblib are not modelled.',
         technique='Coq proof (induction over the batch loop, list lemmas) + translator-tied kernel + in-Coq correspondence evaluation'),
+    'C08': dict(
+        text='Coq theorems for all dimension counts, sizes >= 1 and values: entry (d,n) of the built indices matrix is digit d of n in the '
+             'mixed radix with the first supplied dimension fastest (tile/repeat model of build_ind_val_matrices), values = value_d[index_d], '
+             'every combination occurs exactly once (digits bijection), position = transpose of spectroscopic, and the written datasets list '
+             'dimensions slowest-first with the label/unit at row i belonging to that row under both ordering flags. Model validated against '
+             'build_ind_val_matrices, make_indices_matrix and write_ind_val_dsets (raw h5py read-back) inside coqc.',
+        design='5/C08',
+        note='Trusted: Coq kernel, numpy tile/repeat/flipud/fliplr as mirrored in Base/Matrix.v, uint32/float32 casts (dyadic values), harness. '
+             'The written-dataset theorem is stated for the spectroscopic shape; the position shape is covered by the transpose theorem of the '
+             'builder plus the correspondence run.',
+        technique='Coq proof (mixed-radix digits, induction on lists) + in-Coq correspondence evaluation'),
     'C14': dict(
         text='Coq theorems (unbounded in ranks, pending-list length, batch limit, processor names) about rank ranges, batch windows and '
              'socket masters; the integer kernels are regenerated from process.py by a fail-closed ast translator on every run, '
